@@ -144,6 +144,13 @@ func WorkerMain(id, batchFile, journalFile string) int {
 		}
 	}()
 
+	// a case that consists of many independent steps may restart the budget at each step, so that a budget
+	// death is the fault of the step that was running and not of the sum of its predecessors
+	env.ResetCPU = func() {
+		wmu.Lock()
+		curStart = cpuSeconds()
+		wmu.Unlock()
+	}
 	for _, c := range cases {
 		budget := chk.CPUSec
 		if c.CPUSec > 0 {
